@@ -725,6 +725,44 @@ def check_C13(tier_, sd, consts_ok, consts_detail):
                     violations.append(proj_violation("C13", "the option changed a temp file: %s" % path, on[k], ion, mon, extra={"on": short(x), "off": short(y)}))
         if (ion["verdict"], ion["F"]) != (mon["verdict"], mon["F"]) or (ioff["verdict"], ioff["F"]) != (moff["verdict"], moff["F"]):
             if len(violations) < 5: violations.append(proj_violation("C13", "bytes differ from the model under one of the two settings", on[k], ion, mon, found=False))
+    # the option reaches every file of the run, however the file was discovered: projects WITH dependencies, only one root
+    # requested (the dependencies are found through include/after), option off: a leaf dependency's output is its option-on output
+    # minus exactly the final line ending, and the whole tree equals the model's
+    depp = [p for p in gen_batch(rng, 160 if tier_ == "quick" else 4000, large=False, modes=(0,), allow_errors=False, edges="dag") if any(p.deps.get(s_) for s_ in p.srcs)]
+    d_on, d_off = [], []
+    for p in depp:
+        roots = [s_ for s_ in p.srcs if p.deps.get(s_)]
+        root = roots[rng.below(len(roots))]
+        for tn, lst in ((True, d_on), (False, d_off)):
+            q = p.copy(); q.trailing = tn; q.id = p.id + ("d+" if tn else "d-"); q.inputs = [(root if rng.chance(1, 2) else gen.out_name(root)).lstrip("/")]; q.recursive = False; lst.append(q)
+    d_all = []
+    for p in depp:
+        q = p.copy(); q.trailing = False; q.id = p.id + "d*"; q.inputs = ["."]; q.recursive = True; d_all.append(q)
+    di, dm = both(d_on + d_off + d_all)
+    for k, p in enumerate(depp):
+        ion, ioff = di[k], di[len(depp) + k]; moff = dm[len(depp) + k]; iall = di[2 * len(depp) + k]
+        # a dependency-free source gives the same output whether it was requested (directory input) or found through a directive
+        for s_ in p.srcs:
+            o_ = gen.out_name(s_)
+            if p.deps.get(s_) or ioff["verdict"] != "ok" or iall["verdict"] != "ok" or o_ in ioff["U"] is False: continue
+            if o_ in ioff["U"] and ioff["F"].get(o_) != iall["F"].get(o_) and len(violations) < 5:
+                violations.append(proj_violation("C13", "with the option off, %s is built differently when it is found as a dependency than when it is requested" % o_, d_off[k], ioff, moff,
+                                                 extra={"as_dependency": short(ioff["F"].get(o_)), "requested": short(iall["F"].get(o_))}))
+        if (ioff["verdict"], ioff["F"]) != (moff["verdict"], moff["F"]) and len(violations) < 5:
+            violations.append(proj_violation("C13", "a run with the option off that reaches files as dependencies differs from the model", d_off[k], ioff, moff, found=False))
+        for s_ in p.srcs:
+            if p.deps.get(s_): continue
+            o_ = gen.out_name(s_); x, y = ion["F"].get(o_), ioff["F"].get(o_)
+            if x is None or y is None or dict(p.files).get(o_) in (x, y): continue       # not reached by this run
+            le = le_of_source(dict(p.files)[s_])
+            if not (x == y or x == y + le):
+                if len(violations) < 5:
+                    violations.append(proj_violation("C13", "the option did not reach the dependency %s (found through a directive, not requested): on/off outputs differ by more than the final line ending" % o_, d_off[k], ioff, moff,
+                                                     extra={"on": short(x), "off": short(y)}))
+            elif x != y and not y.endswith(le): rel["dependency-leaf/plus-le"] += 1
+            elif x == y and x.endswith(le) and len(x) > len(le):
+                # the option-off output still ends with the ending: legal only if the source's last item does not produce a final newline either way
+                rel["dependency-leaf/same"] += 1
     # history: built with the option on, then rebuilt with --needed and the option off (and the other way round):
     # the result must be the option-off (resp. on) output, not the leftover
     hist = []
@@ -785,7 +823,7 @@ def check_C13(tier_, sd, consts_ok, consts_detail):
         if len(violations) < 5:
             violations.append({"found": True, "replay": {"property": "C13", "what": "-N -n / temp file under -n wrong on the binary",
                                "b_after_N_n": short(ses[6][1].get("b.txt")), "b_after_N": short(ses[7][1].get("b.txt")), "t.tmp": short(ses[3][1].get("t.tmp"))}})
-    cov = {"evaluations": 2 * n + 2 * len(tl) + len(hist) + len(ses), "distinct_nontrivial": len(nontriv), "needed_history_cases": len(hist), "cli_flag_steps_ok": cli_ok,
+    cov = {"evaluations": 2 * n + 2 * len(tl) + len(hist) + len(ses) + 3 * len(depp), "distinct_nontrivial": len(nontriv), "needed_history_cases": len(hist), "dependency_reach_runs": 3 * len(depp), "cli_flag_steps_ok": cli_ok,
            "rule": "every generated project built twice (option on / off), same controlled schedule; relation checked on the implementation's bytes: identical or on = off + line ending, temp files identical; "
                    "plus sources ending in an ordinary text line; distinct_nontrivial = distinct (on, off) output pairs",
            "relation_distribution": dict(rel), "text_line_ending_cases": ntl, "input_distribution": dist_of(base),
@@ -839,6 +877,38 @@ def check_C12(tier_, sd, consts_ok, consts_detail):
                                                  extra={"bytes": repr(data[:300])}))
         if (a["verdict"], a["F"]) != (b["verdict"], b["F"]) and len(violations) < 5:
             violations.append(proj_violation("C12", "bytes differ from the model", p, a, b, found=False))
+    # history: build, then ONLY the line endings of the sources change (an autocrlf checkout), then rebuild with --needed and with
+    # a plain build on top of the old outputs and temp files: every generated file must follow the new ending
+    flips = []; p0_files = {}
+    for p, a in list(zip(projs, oi))[: 120 if tier_ == "quick" else 3000]:
+        if a["verdict"] != "ok": continue
+        for md in (1, 0):
+            q = follow(p, a, "%s.flip%d" % (p.id, md)); q.mode = md; q.cmds = p.cmds
+            fm2 = dict(q.files)
+            for s_ in p.srcs:
+                c = fm2[s_].replace(b"\r\n", b"\n")
+                if le_of_source(fm2[s_]) == b"\n": c = c.replace(b"\n", b"\r\n")
+                fm2[s_] = c
+            q.files = sorted(fm2.items()); flips.append(q); p0_files[q.id] = p.files
+    fi_, fm_ = both(flips)
+    for q, a, b in zip(flips, fi_, fm_):
+        srcmap = {gen.out_name(s_): s_ for s_ in q.srcs}; fmq = dict(q.files); bad = None
+        for path in [k_ for k_, v_ in a["F"].items() if v_ is not None and not k_.endswith(".txtpp") and ".txtpp." not in k_]:
+            data = a["F"][path]
+            src = srcmap.get(path)
+            if src is None:
+                stem = path.rsplit("/", 1)[1].split("_")[0]
+                cands = [s_ for s_ in q.srcs if s_.rsplit("/", 1)[1].split(".")[0] == stem]
+                src = cands[0] if cands and path not in dict(p0_files.get(q.id, ())) else None
+            if src is None: continue
+            le = le_of_source(fmq[src])
+            if not le_uniform(le, data): bad = (path, src, data)
+            else: classes[("CRLF" if le == b"\r\n" else "LF") + "/after-flip/ok"] += 1
+        if bad and len(violations) < 5:
+            violations.append(proj_violation("C12", "after only the line endings of %s changed, the rebuilt %s keeps the old terminators (mode %s)" % (bad[1], bad[0], "needed" if q.mode == 1 else "build"), q, a, b,
+                                             extra={"bytes": repr(bad[2][:200])}))
+        elif (a["verdict"], a["F"]) != (b["verdict"], b["F"]) and len(violations) < 5:
+            violations.append(proj_violation("C12", "after a line-ending flip of the sources the rebuilt tree differs from the model", q, a, b, found=False))
     # the ending is sniffed from the FIRST line whatever its length: first lines around and beyond the 8 KiB reader buffer
     longp = []
     for k, flen in enumerate([10, 4000, 8189, 8190, 8191, 8192, 8193, 9000, 16383, 16384, 20000] if tier_ == "quick" else list(range(8180, 8200)) + [4095, 4096, 16383, 16384, 16385, 30000, 70000]):
@@ -859,7 +929,7 @@ def check_C12(tier_, sd, consts_ok, consts_detail):
                     violations.append(proj_violation("C12", "%s does not use the line ending of the (long) first line of its source" % path, p, a, None,
                                                      extra={"first_line_length": len(dict(p.files)["/long.txt.txtpp"].split(b"\n")[0]), "bytes_tail": repr((data or b"")[-80:])}))
             else: classes[("CRLF" if le == b"\r\n" else "LF") + "/long-first-line/ok"] += 1
-    cov = {"evaluations": n + len(longp), "distinct_nontrivial": len(nontriv), "long_first_line_cases": len(longp),
+    cov = {"evaluations": n + len(longp) + len(flips), "distinct_nontrivial": len(nontriv), "long_first_line_cases": len(longp), "line_ending_flip_histories": len(flips),
            "rule": "generated projects with endings chosen independently for the first line, later lines, included files, command output, temp bodies and tag contents (CR only before LF, D1); "
                    "every generated file of the implementation is scanned: LF mode => no CR, CRLF mode => every LF preceded by CR and every CR followed by LF; "
                    "plus sources whose first line is 10 .. 20000 bytes long (around the 8 KiB and 16 KiB buffer sizes), implementation only; "
@@ -904,8 +974,39 @@ def check_C16(tier_, sd, consts_ok, consts_detail):
         src = le.join(pre + body) + le + (le.join(post) + le if post else "")
         p = Project("wr%d" % k); p.files = [("/s.txt.txtpp", src.encode())]; p.inputs = ["s.txt"]; p.sched = [0] * 4
         esc.append(p); emeta.append((ls, le, bool(pre)))
-    oi, om = both(projs + esc, oracle=False)
+    # (c) write output captured by a tag is inert too: it may MENTION other tags; when both tags are used on one line each is replaced
+    # at its own occurrence in that line, and nothing inside an injected value is looked at again
+    capt = []; cmeta = []
+    for k in range(60 if tier_ == "quick" else 1500):
+        r = rng.fork("c%d" % k)
+        n1, n2 = r.choice([("AAA", "BBB"), ("T1", "U2"), ("LEFT", "RIGHT")])
+        v1 = r.choice(["the %s marker stays" % n2, "%s" % n2, "x%sx and %s" % (n2, n1), "plain"])
+        v2 = r.choice(["hello", "%s again" % n1, ""])
+        use = r.choice(["[%s] [%s]" % (n1, n2), "%s%s" % (n1, n2), "[%s] mid [%s] [%s]" % (n1, n2, n1), "[%s] then [%s]" % (n2, n1)])
+        L = ["-TXTPP#tag " + n1, "=TXTPP#write " + v1, "-TXTPP#tag " + n2, "=TXTPP#write " + v2, use]
+        def sub1(line, order):
+            # each tag: first occurrence in the ORIGINAL line, replaced by its value; values are not rescanned
+            pos = sorted((line.find(nm), nm, val) for nm, val in order if line.find(nm) >= 0)
+            out = ""; last = 0
+            for i_, nm, val in pos:
+                if i_ < last: continue
+                out += line[last:i_] + val; last = i_ + len(nm)
+            return out + line[last:]
+        exp = sub1(use, [(n1, v1), (n2, v2)])
+        p = Project("cp%d" % k); p.files = [("/s.txt.txtpp", ("\n".join(L) + "\n").encode())]; p.inputs = ["s.txt"]; p.sched = [0] * 4
+        capt.append(p); cmeta.append(exp)
+    oi, om = both(projs + esc + capt, oracle=False)
     violations = []; nontriv = set()
+    for k, p in enumerate(capt):
+        a, b = oi[len(projs) + len(esc) + k], om[len(projs) + len(esc) + k]
+        got = a["F"].get("/s.txt")
+        if a["verdict"] == "ok" and got != (cmeta[k] + "\n").encode():
+            if len(violations) < 5:
+                violations.append(proj_violation("C16", "write output captured by a tag was itself subjected to tag substitution (or the wrong occurrence was replaced)", p, a, b,
+                                                 extra={"expected": cmeta[k], "got": short(got)}))
+        elif (a["verdict"], a["F"]) != (b["verdict"], b["F"]) and len(violations) < 5:
+            violations.append(proj_violation("C16", "bytes differ from the model", p, a, b, found=False))
+        elif a["verdict"] == "ok": nontriv.add(got)
     for k, p in enumerate(projs):
         a, b = oi[k], om[k]
         t, le, final = meta[k]
@@ -935,12 +1036,12 @@ def check_C16(tier_, sd, consts_ok, consts_detail):
         else: nontriv.add(got)
         if (a["verdict"], a["F"]) != (b["verdict"], b["F"]) and len(violations) < 5:
             violations.append(proj_violation("C16", "bytes differ from the model", p, a, b, found=False))
-    cov = {"evaluations": len(projs) + len(esc), "distinct_nontrivial": len(nontriv),
+    cov = {"evaluations": len(projs) + len(esc) + len(capt), "distinct_nontrivial": len(nontriv), "captured_write_cases": len(capt),
            "rule": "(a) sources made only of lines the grammar does not recognise (look-alikes, blanks, non-ASCII), LF/CRLF, with/without final newline, option on/off: output must equal the lines re-joined; "
                    "(b) line sequences (directive look-alikes, blanks, tag names) escaped with a write directive, optionally with a stored tag around: output must equal the lines; distinct_nontrivial = distinct correct outputs",
            "identity_cases": len(projs), "write_roundtrip_cases": len(esc),
            "samples": [projs[1].files[0][1].decode(), esc[1].files[0][1].decode()]}
-    xcheck(cov, violations, "C16", [p for p in projs + esc], om)
+    xcheck(cov, violations, "C16", [p for p in projs + esc + capt], om)
     return {"coverage": cov, "violations": violations}
 
 # ------------------------------------------------------------------ C14 tags
@@ -980,7 +1081,11 @@ def check_C14(tier_, sd, consts_ok, consts_detail):
         L.append(r.choice(["a NAME b", "NAME NAME", "no use", "  indented NAME", "xNAMEy NAME"]))
         if r.chance(1, 3): L.append("late NAME")
         p = Project("lc%d" % j); p.files = [("/s.txt.txtpp", ("\n".join(L) + "\n").encode()), ("/inc.txt", r.choice([b"inc\n", b"i1\r\ni2", b""]))]
-        p.inputs = ["s.txt"]; p.sched = [0] * 4
+        if j % 2:
+            # inc.txt is itself GENERATED: the include/after becomes a dependency directive, the file gets two passes and the
+            # tag is pending (listening or stored) at the end of the first one
+            p.files = [p.files[0], ("/inc.txt.txtpp", r.choice([b"gen inc\n", b"g1\r\ng2\r\n", b"-TXTPP#write NAME in a dependency\n"]))]
+        p.inputs = ["s.txt"]; p.sched = [r.below(2) for _ in range(6)]
         projs.append(p)
     oi, om = both(projs, oracle=False)
     pbad = [j for j in range(len(projs)) if (oi[j]["verdict"], oi[j]["F"] if oi[j]["verdict"] == "ok" else None) != (om[j]["verdict"], om[j]["F"] if om[j]["verdict"] == "ok" else None)]
@@ -1115,6 +1220,25 @@ def check_C07(tier_, sd, consts_ok, consts_detail):
     cl = []
     for p, a in zip(projs, bi):
         q = follow(p, a, p.id + ".clean"); q.mode = 2; q.cmds = p.cmds; cl.append(q)
+    # clean in the presence of directives that cannot be honoured (a temp target that is a directory, a target below a missing
+    # directory, a .txtpp target, a temp directive without arguments): it must still succeed and still remove what the LATER
+    # temp directives and the output name (files lying there are planted)
+    hard = []
+    for k in range(40 if tier_ == "quick" else 400):
+        r = rng.fork("hard%d" % k); p = Project("hard%d" % k)
+        d = r.choice(["/", "/sub/"]); src = d + r.choice(["h.txt.txtpp", "h.v2.txtpp.md", "h.txtpp"])
+        bad = r.shuffle(["adir", "missing/dir/t.out", "gen.txtpp", "gen.txtpp.md", ""])[: 1 + r.below(3)]
+        L = ["top"]; planted = []
+        for j, t in enumerate(bad + ["later%d.out" % k, "sub2/later.tmp"]):
+            pre = "-=+~"[j % 4]
+            L += ["%sTXTPP#temp %s" % (pre, t), "%sbody %d" % (pre, j), "mid %d" % j]
+        p.dirs = [d.rstrip("/") + "/adir" if d != "/" else "/adir", (d.rstrip("/") if d != "/" else "") + "/sub2"]
+        p.files = [(src, ("\n".join(L) + "\n").encode()), (d + "later%d.out" % k, b"old temp"), (d + "sub2/later.tmp", b"old temp 2"),
+                   (gen.out_name(src), b"old output"), (d + "keep.txt", b"keep")]
+        p.srcs = [src]; p.deps = {src: []}; p.inputs = ["."]; p.recursive = True; p.mode = 2; p.sched = [0] * 6
+        p.stats = collections.Counter({"clean-hard:project": 1})
+        hard.append(p)
+    hi, hm = both(hard, oracle=False)
     ci, cm = both(cl, oracle=False)
     violations = []; nrest = 0; nontriv = set()
     for p, q, a, c, m in zip(projs, cl, bi, ci, cm):
@@ -1137,7 +1261,16 @@ def check_C07(tier_, sd, consts_ok, consts_detail):
             nontriv.add(tuple(sorted(set(k for k, v in a["F"].items() if v is not None) - set(init))))
         if (c["verdict"], c["F"], c["U"]) != (m["verdict"], m["F"], m["U"]) and len(violations) < 5:
             violations.append(proj_violation("C07", "clean differs from the model (tree or touched set)", q, c, m, found=False))
-    cov = {"evaluations": 2 * len(projs), "distinct_nontrivial": len(nontriv),
+    hard_ok = 0
+    for p, c, m in zip(hard, hi, hm):
+        after = {k: v for k, v in c["F"].items() if v is not None}
+        left = [k for k in after if k.endswith(".out") or k.endswith(".tmp") or k == gen.out_name(p.srcs[0])]
+        if (c["verdict"] != "ok" or left) and len(violations) < 5:
+            violations.append(proj_violation("C07", "clean with unhonourable temp directives: verdict %s, generated files left behind %s" % (c["verdict"], left), p, c, m))
+        elif (c["verdict"], c["F"], c["U"]) != (m["verdict"], m["F"], m["U"]) and len(violations) < 5:
+            violations.append(proj_violation("C07", "clean differs from the model (tree or touched set)", p, c, m, found=False))
+        else: hard_ok += 1
+    cov = {"evaluations": 2 * len(projs) + len(hard), "distinct_nontrivial": len(nontriv), "clean_with_unhonourable_temp_directives_ok": hard_ok,
            "rule": "generated projects (erroneous directives included, counting commands with marker files; plus projects whose temp targets lie in sub-directories, parent directories and outside the base directory) are built, then cleaned with the same inputs (whole tree, recursive); "
                    "checked on the implementation: clean succeeds, writes no marker (runs nothing), deletes no .txtpp, leaves every non-generated file byte-identical, and after a successful build restores the tree exactly; "
                    "distinct_nontrivial = distinct sets of generated paths that clean had to remove",
@@ -1560,7 +1693,8 @@ def check_C17(tier_, sd, consts_ok, consts_detail):
                     if status_fail: body += [r.choice(["-TXTPP#run exit %d" % (1 + r.below(3)), "-TXTPP#run echo partial; kill -9 $$", "-TXTPP#run kill -TERM $$; echo late"])]
                     p.files = [(src, ("\n".join(body) + "\n").encode())]
                     # decoy directories with the same relative names under the process cwd
-                    p.dirs = ["/decoy/sub/deep/er", "/decoy/deep/er", "/decoy/er", "/other", "/sub/deep/er"]
+                    p.dirs = ["/decoy/sub/deep/er", "/decoy/deep/er", "/decoy/er", "/other", "/sub/deep/er",
+                              "/sh", "/decoy/sh", "/sub/sh", "/sub/deep/sh"]      # entries called `sh` in the process cwd / source directory: the shell comes from PATH
                     p.base = base; p.cwd = cwd
                     sd_ = src.rsplit("/", 1)[0] or "/"
                     # the input is named relative to the base directory
@@ -1736,6 +1870,25 @@ def check_C18(tier_, sd, consts_ok, consts_detail):
             if rc not in (0, 1, 2):
                 violations.append({"found": True, "replay": {"property": "C18", "what": "txtpp %s ended with %s (panic, abort or hang) instead of exit 0/1" % (" ".join(args), rc),
                                    "how": "in a directory containing a.txt.txtpp"}})
+        # commands whose output is far larger than a pipe buffer (64 KiB), on stdout and on stderr, succeeding and failing, in
+        # every mode: the run must end (no dead-lock between the child's write and the worker's wait) with the right status
+        open(os.path.join(d, "big.txt.txtpp"), "wb").write(b"top\n-TXTPP#run head -c 300000 /dev/zero | tr '\\0' x\n\nend\n")
+        open(os.path.join(d, "err.txt.txtpp"), "wb").write(b"top\n-TXTPP#run head -c 300000 /dev/zero | tr '\\0' e >&2; printf ok\n\nend\n")
+        open(os.path.join(d, "fail.txt.txtpp"), "wb").write(b"top\n-TXTPP#run head -c 300000 /dev/zero | tr '\\0' e >&2; head -c 100000 /dev/zero | tr '\\0' o; exit 3\n\nend\n")
+        for args, want in ((["big.txt"], 0), (["-N", "big.txt"], 0), (["verify", "big.txt"], 0), (["err.txt"], 0), (["fail.txt"], 1), (["clean", "big.txt", "err.txt"], 0)):
+            try:
+                r = subprocess.run([CLI, "-q"] + args, cwd=d, stdout=subprocess.DEVNULL, stderr=subprocess.DEVNULL, timeout=30)
+                rc = r.returncode
+            except subprocess.TimeoutExpired:
+                rc = "timeout"
+            cli.append(("big-output " + " ".join(args), rc))
+            size_ok = True
+            if args == ["big.txt"]:
+                try: size_ok = os.path.getsize(os.path.join(d, "big.txt")) == 4 + 300000 + 1 + 4
+                except OSError: size_ok = False
+            if rc != want or not size_ok:
+                violations.append({"found": True, "replay": {"property": "C18", "what": "txtpp %s on a run directive printing 300 kB ended with %s (expected exit %d%s)" % (" ".join(args), rc, want, "" if size_ok else ", output incomplete"),
+                                   "how": "`-TXTPP#run head -c 300000 /dev/zero | tr '\\0' x` (stdout), the same on stderr, and a failing command writing to both"}})
     finally:
         shutil.rmtree(d, ignore_errors=True)
     cov = {"evaluations": len(projs) + len(cli), "distinct_nontrivial": len(nontriv), "systematic_continuation_cases": kk,
